@@ -11,6 +11,19 @@
 //                                                        2^k+1 (k = 1..kmax), with fresh inputs each time
 //     wide <seed> <rows> <nex>                           examples with 70000 features, programs over variables whose
 //                                                        indices sit around 2^8 and 2^16
+//     pen <set> <seed>                                   a comparison / conditional function with engineered equalities
+//                                                        among its argument indices at the start locus; the same
+//                                                        individual built directly and through storage that held a
+//                                                        gene of another arity before
+//     team <set> <seed> <rows> <members> <nex>           a team<i_mep> run through reg_lambda_f<team<i_mep>>: every
+//                                                        member on its own (reused) interpreter object
+//     layout <set> <seed> <rows> <nex>                   the same expression tree laid out differently: 2·rows rows,
+//                                                        every active gene copied to rows 2i and 2i+1, every argument
+//                                                        pointing to one of the two copies at random (shared genes get
+//                                                        unshared or stay shared at random), other rows random
+//     intron <set> <seed> <rows> <nex>                   the same active code, every inactive gene replaced at random
+//     swap <set> <seed> <rows> <nex>                     ONE src_interpreter object; the individual it points to is
+//                                                        assigned other programs (of the same shape) between runs
 // one answer line per request: a transcript of items separated by " ;; "
 //     P <rows> <cats> <bi> <bc> ; i c desc par n a0 c0 … ; …       a program (active AND inactive genes)
 //     R<k> <example tokens> = <vita's answer> <oracle's answer>
@@ -20,6 +33,11 @@
 //              L  one reg_lambda_f object reused over the examples
 //     RR<k> <n> <example tokens> = <vita's last answer> <oracle's answer> bad=<runs whose answer was not the oracle's>
 //          the same example run <n> times in a row on the object of the preceding R<k> items (k = S or L)
+//     N<k> = <vita's penalty()> <oracle's penalty>        k = F fresh interpreter<i_mep>, S the reused src_interpreter
+//     Q <rows> <cats> <bi> <bc> ; …                       the program now behind the SAME interpreter object (swap)
+//     E <what> <example tokens> = <a> <b>                 two answers of vita that must be identical (layout / intron /
+//                                                        penalty of equal individuals)
+//     T <example tokens> = <team lambda> <own running mean of the members' oracle values>
 //     an example may be written sparsely:  @<size> <default token> <index>:<token> …
 // The oracle is written here and is independent of vita's interpreter AND of the Lean model: the
 // active expression tree is evaluated recursively, without memo and without an instruction
@@ -41,6 +59,7 @@
 #include <limits>
 #include <map>
 #include <memory>
+#include <set>
 #include <variant>
 
 using namespace vita;
@@ -83,6 +102,14 @@ struct tree_params : symbol_params
     return (ex && i < ex->size()) ? (*ex)[i] : value_t();
   }
 };
+
+// as a value (for the team mean); throws what the evaluation throws
+value_t oracle_value(const var_index_t &vars, const i_mep &ind, const std::vector<value_t> *ex)
+{
+  unsigned long steps = 0;
+  tree_params p(ind, ind.best(), ex, &steps, &vars);
+  return p.eval_here();
+}
 
 std::string oracle(const var_index_t &vars, const i_mep &ind, const std::vector<value_t> *ex)
 {
@@ -232,6 +259,26 @@ std::unique_ptr<symset> make_set(const std::string &name)
   return s;
 }
 
+// ---- penalty ------------------------------------------------------------------------------------
+std::string pen_enc(double v)
+{
+  if (v >= 0.0 && v < 1e6 && v == std::floor(v)) return std::to_string(static_cast<long>(v));
+  return "D" + wire::hex16(verif::bits(v));
+}
+
+// The documented rule (comp_penalty.h, real.h, int.h): the four-term comparisons `if a0 ∘ a1 then a2 else a3`
+// are penalised once when the two compared terms are the same gene and once when the two results are the
+// same gene; the penalty of a program is that of the symbol at its start locus; nothing else is penalised.
+// Computed from the gene's own arguments, never beyond its arity.
+std::string penalty_oracle(const std::map<const symbol *, std::string> &desc, const i_mep &ind)
+{
+  static const std::set<std::string> four = {"F:FIFE", "F:FIFL", "F:IFE", "F:IFL"};
+  const gene &g = ind[ind.best()];
+  const auto it = desc.find(g.sym);
+  if (it == desc.end() || !four.count(it->second) || g.sym->arity() != 4 || g.args.size() != 4) return "0";
+  return std::to_string(int(g.args[0] == g.args[1]) + int(g.args[2] == g.args[3]));
+}
+
 // ---- serialisation ---------------------------------------------------------------------------
 std::string program(const symset &ss, const i_mep &ind)
 {
@@ -310,6 +357,8 @@ void exercise(const symset &ss, const i_mep &ind, const std::vector<example_t> &
     for (const auto &ex : exs)
       out += " ;; RS " + ex.tok + " = " + guarded([&] { return it.run(ex.v); }) + " " +
              oracle(ss.var_index, ind, &ex.v);
+    // penalty() on the same object between the runs (sets ip_, must not disturb anything)
+    out += " ;; NS = " + pen_enc(it.penalty()) + " " + penalty_oracle(ss.desc, ind);
     // … and once more in reverse order on the same object
     for (auto e = exs.rbegin(); e != exs.rend(); ++e)
       out += " ;; RS " + e->tok + " = " + guarded([&] { return it.run(e->v); }) + " " +
@@ -317,6 +366,7 @@ void exercise(const symset &ss, const i_mep &ind, const std::vector<example_t> &
   }
   // no example at all
   out += " ;; R0 = " + guarded([&] { return vita::run(ind); }) + " " + oracle(ss.var_index, ind, nullptr);
+  out += " ;; NF = " + pen_enc(interpreter<i_mep>(&ind).penalty()) + " " + penalty_oracle(ss.desc, ind);
   // the regression lambda keeps one interpreter as well
   {
     const reg_lambda_f<i_mep> lam(ind);
@@ -330,7 +380,14 @@ void exercise(const symset &ss, const i_mep &ind, const std::vector<example_t> &
   }
 }
 
+std::vector<example_t> draw_examples(const symset &ss, verif::splitmix &r, unsigned nex);
+
 void exercise(const symset &ss, const i_mep &ind, verif::splitmix &r, unsigned nex, std::string &out)
+{
+  exercise(ss, ind, draw_examples(ss, r, nex), out);
+}
+
+std::vector<example_t> draw_examples(const symset &ss, verif::splitmix &r, unsigned nex)
 {
   std::vector<example_t> exs;
   for (unsigned e = 0; e < nex; ++e)
@@ -340,7 +397,79 @@ void exercise(const symset &ss, const i_mep &ind, verif::splitmix &r, unsigned n
     ex.tok = tokens(ex.v);
     exs.push_back(ex);
   }
-  exercise(ss, ind, exs, out);
+  return exs;
+}
+
+// ---- engineered layouts -----------------------------------------------------------------------
+std::set<locus> active_loci(const i_mep &ind)
+{
+  std::set<locus> seen;
+  std::vector<locus> todo{ind.best()};
+  while (!todo.empty())
+  {
+    const locus l = todo.back();
+    todo.pop_back();
+    if (!seen.insert(l).second) continue;
+    const gene &g = ind[l];
+    for (unsigned k = 0; k < g.sym->arity(); ++k) todo.push_back(g.locus_of_argument(k));
+  }
+  return seen;
+}
+
+// are the expression trees rooted at la / lb the same (symbol, parameter, sub-trees)?  Own recursion, budgeted.
+bool same_tree(const i_mep &a, locus la, const i_mep &b, locus lb, unsigned long &steps)
+{
+  if (++steps > 400000) throw budget_exceeded();
+  const gene &ga = a[la], &gb = b[lb];
+  if (ga.sym != gb.sym) return false;
+  if (ga.sym->terminal() && terminal::cast(ga.sym)->parametric() && verif::bits(ga.par) != verif::bits(gb.par))
+    return false;
+  for (unsigned k = 0; k < ga.sym->arity(); ++k)
+    if (!same_tree(a, ga.locus_of_argument(k), b, gb.locus_of_argument(k), steps)) return false;
+  return true;
+}
+
+// first function of the individual as the start locus (vita's constructor starts at [0,0] whatever is there)
+i_mep start_at_function(const i_mep &a)
+{
+  if (!a[a.best()].sym->terminal()) return a;
+  for (index_t i = 0; i < a.size(); ++i)
+    for (category_t c = 0; c < a.categories(); ++c)
+      if (a[locus{i, c}].sym->arity()) return a.get_block(locus{i, c});
+  return a;
+}
+
+void equal_items(const char *what, const i_mep &a, const i_mep &b, const std::vector<example_t> &exs, std::string &out)
+{
+  for (const auto &ex : exs)
+    out += std::string(" ;; E ") + what + " " + ex.tok + " = " + guarded([&] { return vita::run(a, ex.v); }) + " " +
+           guarded([&] { return vita::run(b, ex.v); });
+}
+
+// ---- teams --------------------------------------------------------------------------------------
+struct team_peek : reg_lambda_f<team<i_mep>>
+{
+  using reg_lambda_f<team<i_mep>>::reg_lambda_f;
+  std::size_t members() const { return this->team_.size(); }
+  // the very interpreter object the team lambda uses for member k
+  value_t member(std::size_t k, const std::vector<value_t> &ex) const { return this->team_[k].run(ex); }
+};
+
+// basic_reg_lambda_f<team>::eval as documented: running mean of the members' defined outputs
+value_t own_team_value(const std::vector<value_t> &vals)
+{
+  double avg = 0.0, count = 0.0;
+  for (const auto &v : vals)
+  {
+    double x;
+    if (std::holds_alternative<D_DOUBLE>(v)) x = std::get<D_DOUBLE>(v);
+    else if (std::holds_alternative<D_INT>(v)) x = static_cast<double>(std::get<D_INT>(v));
+    else continue;
+    count += 1.0;
+    avg += (x - avg) / count;
+  }
+  if (count > 0.0 && std::isfinite(avg)) return value_t(avg);
+  return {};
 }
 
 // ---- wide examples --------------------------------------------------------------------------
@@ -645,6 +774,181 @@ int main()
           }
           const example_t ex = make(lazy_then, ++j);
           out += " ;; R" + k + " " + ex.tok + " = " + run1(ex) + " " + oracle(ss.var_index, ind, &ex.v);
+        }
+      }
+      else if (t.size() == 3 && t[0] == "pen" && sets.count(t[1]) && t[1] != "wide")
+      {
+        symset &ss = *sets[t[1]];
+        const unsigned long seed = std::stoul(t[2]);
+        random::seed(seed);
+        verif::splitmix r(seed);
+        ss.prob.env.mep.code_length = 12;
+        ss.prob.env.mep.patch_length = 3;
+        const i_mep base(ss.prob);
+        std::vector<const function *> fs;      // functions with >= 3 arguments: conditionals / comparisons
+        for (auto &kv : ss.desc)
+          if (kv.second.rfind("F:", 0) == 0 && kv.first->arity() >= 3) fs.push_back(function::cast(kv.first));
+        if (fs.empty()) { std::cout << "bad-op no conditional\n"; continue; }
+        const function *f = fs[r.below(fs.size())];
+        const category_t c = f->category();
+        // argument rows 1..8 (functions or terminals, whatever the random individual has there)
+        const index_t x = 1 + r.below(8), y = 1 + r.below(8), z = 1 + r.below(8), w = 1 + r.below(8);
+        std::vector<index_t> args;
+        if (f->arity() >= 4) args = {x, r.chance(0.5) ? x : y, z, r.chance(0.5) ? z : w};
+        else                 args = {x, r.chance(0.5) ? x : y, r.chance(0.5) ? x : z};
+        while (args.size() < f->arity()) args.push_back(1 + r.below(8));
+        const gene target(std::make_pair(const_cast<symbol *>(static_cast<const symbol *>(f)), args));
+        const i_mep direct = base.replace(locus{0, c}, target).get_block(locus{0, c});
+        // the same individual, but the storage of the start gene held a gene of another function before
+        // (its trailing argument indices chosen to collide with the target's)
+        std::vector<const function *> others;
+        for (auto &kv : ss.desc)
+          if (kv.second.rfind("F:", 0) == 0 && kv.first->arity() && kv.first->category() == c && kv.first != f)
+            others.push_back(function::cast(kv.first));
+        i_mep via = direct;
+        if (!others.empty())
+        {
+          const function *f2 = others[r.below(others.size())];
+          std::vector<index_t> a2;
+          for (unsigned k = 0; k < f2->arity(); ++k)
+            a2.push_back(k < args.size() ? args[k] : (r.chance(0.7) ? args.back() : index_t(1 + r.below(8))));
+          via = base.replace(locus{0, c}, gene(std::make_pair(const_cast<symbol *>(static_cast<const symbol *>(f2)), a2)))
+                    .replace(locus{0, c}, target).get_block(locus{0, c});
+        }
+        if (!(direct == via)) { std::cout << "bad-op pen construction\n"; continue; }
+        const auto exs = draw_examples(ss, r, 2);
+        exercise(ss, direct, exs, out);
+        exercise(ss, via, exs, out);
+        out += " ;; E penalty = N" + pen_enc(interpreter<i_mep>(&direct).penalty()) + " N" +
+               pen_enc(interpreter<i_mep>(&via).penalty());
+      }
+      else if (t.size() == 6 && t[0] == "team" && (t[1] == "real" || t[1] == "int"))
+      {
+        symset &ss = *sets[t[1]];
+        const unsigned long seed = std::stoul(t[2]);
+        const unsigned rows = std::stoul(t[3]), members = std::stoul(t[4]), nex = std::stoul(t[5]);
+        ss.prob.env.mep.code_length = rows;
+        ss.prob.env.mep.patch_length = 1 + seed % std::min<unsigned long>(rows - 1, 4);
+        ss.prob.env.team.individuals = members;
+        random::seed(seed);
+        verif::splitmix r(seed);
+        team<i_mep> ta(ss.prob), tb(ss.prob);
+        for (unsigned s = r.below(3); s > 0; --s)
+        {
+          if (r.chance(0.5)) ta.mutation(0.3, ss.prob);
+          else               ta = crossover(ta, tb);
+        }
+        const auto exs = draw_examples(ss, r, nex);
+        const team_peek lam(ta);
+        if (lam.members() != members) { std::cout << "bad-op team size\n"; continue; }
+        std::vector<std::string> per(members);
+        std::string tl;
+        for (unsigned pass = 0; pass < 2; ++pass)      // the examples forwards, then backwards
+          for (unsigned q = 0; q < exs.size(); ++q)
+          {
+            const example_t &ex = exs[pass ? exs.size() - 1 - q : q];
+            dataframe::example de;
+            de.input = ex.v;
+            const std::string tv = guarded([&] { return lam(de); });     // runs every member once
+            std::vector<value_t> ov;
+            bool thrown = false;
+            for (unsigned k = 0; k < members; ++k)
+            {
+              std::string os;
+              try { ov.push_back(oracle_value(ss.var_index, ta[k], &ex.v)); os = wire::enc(ov.back()); }
+              catch (const std::bad_variant_access &) { thrown = true; os = "T"; }
+              catch (const budget_exceeded &) { thrown = true; os = "skip"; }
+              // … and once more, observed, on the member's own interpreter object
+              per[k] += " ;; RRL 2 " + ex.tok + " = " + guarded([&] { return lam.member(k, ex.v); }) + " " + os + " bad=0";
+            }
+            if (!thrown) tl += " ;; T " + ex.tok + " = " + tv + " " + wire::enc(own_team_value(ov));
+          }
+        for (unsigned k = 0; k < members; ++k)
+          out += (out.empty() ? "" : " ;; ") + program(ss, ta[k]) + per[k];
+        out += tl;
+      }
+      else if (t.size() == 5 && (t[0] == "layout" || t[0] == "intron" || t[0] == "swap") && sets.count(t[1]) &&
+               t[1] != "wide")
+      {
+        symset &ss = *sets[t[1]];
+        const unsigned long seed = std::stoul(t[2]);
+        const unsigned rows = std::stoul(t[3]), nex = std::stoul(t[4]);
+        const unsigned patch = 1 + seed % std::min<unsigned long>(rows - 1, 4);
+        ss.prob.env.mep.code_length = rows;
+        ss.prob.env.mep.patch_length = patch;
+        random::seed(seed);
+        verif::splitmix r(seed);
+        i_mep a(ss.prob), a2(ss.prob);
+        for (unsigned s = r.below(3); s > 0; --s)
+        {
+          if (r.chance(0.5)) a.mutation(0.3, ss.prob);
+          else               a = crossover(a, a2);
+        }
+        a = start_at_function(a);
+        const auto exs = draw_examples(ss, r, nex);
+        if (t[0] == "layout")
+        {
+          ss.prob.env.mep.code_length = 2 * rows;
+          ss.prob.env.mep.patch_length = 2 * patch;
+          i_mep b(ss.prob);
+          for (const locus &l : active_loci(a))
+            for (index_t d = 0; d < 2; ++d)
+            {
+              const gene &g = a[l];
+              if (g.sym->arity())
+              {
+                std::vector<index_t> args;
+                for (unsigned k = 0; k < g.sym->arity(); ++k) args.push_back(2 * g.args[k] + r.below(2));
+                b = b.replace(locus{2 * l.index + d, l.category},
+                              gene(std::make_pair(const_cast<symbol *>(g.sym), args)));
+              }
+              else
+                b = b.replace(locus{2 * l.index + d, l.category}, g);
+            }
+          b = b.get_block(locus{2 * a.best().index + r.below(2), a.best().category});
+          unsigned long steps = 0;
+          bool same = false, big = false;
+          try { same = same_tree(a, a.best(), b, b.best(), steps); } catch (const budget_exceeded &) { big = true; }
+          if (!b.is_valid() || (!same && !big)) { std::cout << "bad-op layout construction\n"; continue; }
+          exercise(ss, a, exs, out);
+          exercise(ss, b, exs, out);
+          equal_items("layout", a, b, exs, out);
+        }
+        else if (t[0] == "intron")
+        {
+          const i_mep rnd(ss.prob);
+          const auto act = active_loci(a);
+          i_mep b(a);
+          for (index_t i = 0; i < a.size(); ++i)
+            for (category_t c = 0; c < a.categories(); ++c)
+              if (!act.count(locus{i, c}) && r.chance(0.9)) b = b.replace(locus{i, c}, rnd[locus{i, c}]);
+          if (!b.is_valid() || active_loci(b) != act) { std::cout << "bad-op intron construction\n"; continue; }
+          exercise(ss, a, exs, out);
+          exercise(ss, b, exs, out);
+          equal_items("intron", a, b, exs, out);
+        }
+        else
+        {
+          i_mep b(ss.prob);
+          b = start_at_function(b);
+          i_mep cur(a);
+          src_interpreter<i_mep> it(&cur);
+          bool on_a = true;
+          out = program(ss, a);
+          for (unsigned q = 0; q < 3 * nex + 3; ++q)
+          {
+            if (q && r.chance(0.6))
+            {
+              on_a = !on_a;
+              cur = on_a ? a : b;                                   // the object keeps pointing to `cur`
+              out += " ;; Q" + program(ss, cur).substr(1);
+            }
+            const example_t &ex = exs[r.below(exs.size())];
+            if (r.chance(0.25))
+              out += " ;; NS = " + pen_enc(it.penalty()) + " " + penalty_oracle(ss.desc, cur);
+            out += " ;; RS " + ex.tok + " = " + guarded([&] { return it.run(ex.v); }) + " " +
+                   oracle(ss.var_index, cur, &ex.v);
+          }
         }
       }
       else
